@@ -171,7 +171,13 @@ func (r *resolver) module(y *Module) error {
 		// prefix, we need to reindex them
 		byName := y.imports
 		y.imports = make(map[string]*Import, len(byName))
-		for _, i := range byName {
+		names := make([]string, 0, len(byName))
+		for name := range byName {
+			names = append(names, name)
+		}
+		sort.Strings(names)
+		for _, name := range names {
+			i := byName[name]
 			if i.loader == nil {
 				return fmt.Errorf("%s - no module loader defined", i.moduleName)
 			}
@@ -201,7 +207,12 @@ func (r *resolver) module(y *Module) error {
 
 			// imports were originally added by module name, but now that we know the
 			// prefix, we need to re-add them with proper key: prefix
-			y.imports[i.Prefix()] = i
+			// (a prefix is the business of the file it is written in: where an included submodule
+			// uses the prefix of one of the module's own imports for another module, the module's
+			// own import keeps it)
+			if _, taken := y.imports[i.Prefix()]; !taken || i.parent == y {
+				y.imports[i.Prefix()] = i
+			}
 		}
 	}
 
